@@ -170,7 +170,7 @@ Definition is_bin_sec (s : secondary) : bool :=
   match s with S_BinaryLeftToRight | S_BinaryRightToLeft | S_OptionalBinaryLeftToRight => true | _ => false end.
 
 Definition atom_node (n : pnode) (d : definition) (k : nat) (p : option nat) : Prop :=
-  is_atom_sec (n_sec n) = true /\ norm_atom (n_def n) = d /\ priority (n_def n) = Some 10%N /\
+  is_atom_sec (n_sec n) = true /\ n_def n = d /\ priority (n_def n) = Some 10%N /\
   n_parent n = p /\ n_left n = None /\ n_right n = None /\ n_tok n = Some k.
 
 (* an operator token, or the synthesised list node of the implicit space list *)
